@@ -42,9 +42,30 @@ ClauseOK(c, order, name) ==
 
 AllClauses == <<"tree", "finite", "types", "order", "counts", "parents", "fanout",
                 "eff_m", "eff_c", "eff_r", "eff_s", "iter", "getpage", "numpages", "callbacks">>
+(* Records of kind "reader": a foreign conforming tree (nodes/root: the     *)
+(* tree as it was handed to the independent serialiser, in the file's      *)
+(* final revision) and what the real reader answered for the rendered      *)
+(* file: iter, getpage, numpages as above, dec: page.Decode of each page   *)
+(* the iterator yielded ([id, a]).  The expectation is RefPages of the     *)
+(* given tree.                                                             *)
+IsReader(c) == "kind" \in DOMAIN c /\ c.kind = "reader"
+ReaderClauses == <<"premise", "r_iter", "r_getpage", "r_numpages", "r_decode">>
+ReaderClauseOK(c, name) ==
+  LET pages == RefPages(c.nodes, c.root) IN
+  CASE name = "premise"    -> ConformingTree(c.nodes, c.root, 0)
+    [] name = "r_iter"     -> IterOK(c.iter, pages)
+    [] name = "r_getpage"  -> GetPageOK(c.getpage, pages)
+    [] name = "r_numpages" -> NumPagesOK(c.numpages, pages)
+    [] name = "r_decode"   -> DecodedOK(c.dec, pages)
+    [] OTHER -> TRUE
+ReaderOK(c, cl) ==
+  IF cl = "all" THEN ConformingTree(c.nodes, c.root, 0) /\ \A j \in 1..Len(ReaderClauses) : ReaderClauseOK(c, ReaderClauses[j])
+  ELSE ReaderClauseOK(c, cl)
+
 \* a record may name the clause it is to be judged by (field "clause")
 ClauseOf(c) == IF "clause" \in DOMAIN c THEN c.clause ELSE Clause
 CaseOK(c) ==
+  IF IsReader(c) THEN ReaderOK(c, ClauseOf(c)) ELSE
   LET order == Order(c)
   IN IF ClauseOf(c) = "all" THEN \A j \in 1..Len(AllClauses) : ClauseOK(c, order, AllClauses[j])
      ELSE ClauseOK(c, order, ClauseOf(c))
